@@ -1,4 +1,4 @@
-import NimaVerif.Model.Doc
+import NimaVerif.Model.AttrTree
 /-!
 L6 (d): structural well-formedness vocabulary for abstract documents (core Lean only).
 
@@ -50,5 +50,28 @@ end
 /-- Coherence: the places that reference the same AttributeSet object hold equal copies. -/
 def Coh (t : Node) : Prop :=
   ∀ a ∈ occS t, ∀ b ∈ occS t, a.setSid? = b.setSid? → a = b
+
+/-- identities reachable through `values` are pairwise different -/
+def IdsOK (t : Node) : Prop := (vIds t).Nodup
+/-- no set reachable through `values` defines a name twice -/
+def KeysOK (t : Node) : Prop := (denote t).nodup = true
+/-- the next `K` identities `fresh` hands out are unused -/
+def FreshFor (t : Node) (next K : Nat) : Prop := ∀ i ∈ vIds t, i < next ∨ next + K ≤ i
+
+instance (t : Node) : Decidable (IdsOK t) := by unfold IdsOK; infer_instance
+instance (t : Node) : Decidable (KeysOK t) := by unfold KeysOK; infer_instance
+instance (t : Node) (n K : Nat) : Decidable (FreshFor t n K) := by unfold FreshFor; infer_instance
+
+/-- Well-formed editable document, as far as the attribute-level theorems need it. Every clause is
+    structural and holds by construction for a document the parser produced (`harness/docmodel.py`
+    numbers each Python object once; the parser rejects duplicate definitions; attrpath families are
+    built by `_merge_attrpath_bindings`), and `scratch` is `none` between operations. -/
+structure WF (d : Doc) : Prop where
+  editable : d.noTarget = none
+  isSet : d.target.isSet = true
+  ids : IdsOK d.target
+  keys : KeysOK d.target
+  fam : famOK d.target = true
+  scratch : d.scratch = none
 
 end Nima
